@@ -5,6 +5,7 @@ import (
 	"bytes"
 	"compress/gzip"
 	"fmt"
+	"hash/crc32"
 	"os/exec"
 	"strings"
 
@@ -85,6 +86,16 @@ func compress(ext string, data []byte) ([]byte, error) {
 		return buf.Bytes(), nil
 	case "xz":
 		if have("xz") {
+			// the dictionary size recorded in the stream is what a decoder has to accept: 1 MiB (-1) mostly,
+			// now and then what the higher presets write (-7: 16 MiB, -8: 32 MiB, -9: 64 MiB)
+			switch crc32.ChecksumIEEE(data) % 8 {
+			case 0:
+				return runFilter(data, "xz", "-c", "--lzma2=preset=0,dict=64MiB")
+			case 1:
+				return runFilter(data, "xz", "-c", "--lzma2=preset=0,dict=16MiB")
+			case 2:
+				return runFilter(data, "xz", "-c", "--lzma2=preset=0,dict=32MiB")
+			}
 			return runFilter(data, "xz", "-c", "-1")
 		}
 		return runFilter(data, "python3", "-c", "import sys,lzma;sys.stdout.buffer.write(lzma.compress(sys.stdin.buffer.read()))")
